@@ -8,15 +8,18 @@
 //	              number of writes to edge.nullRejectedRels and the uses of JoinTypeGroupBy
 //	              → Gms/Generated/C01.lean
 //	c01 run       (a) checkProperty unit correspondence (real memo.checkProperty vs. the Lean model);
-//	              (b) physical-operator cases: two-table joins forced to one algorithm by hints, plan
-//	              shape verified, the engine's row SEQUENCE against the Lean model of that iterator;
-//	              (c) engine-level: generated databases (PK / UNIQUE / secondary / composite indexes)
-//	              and join queries (2-4 way inner/left/cross chains, IN / EXISTS / NOT IN / NOT EXISTS
-//	              subqueries that become semi/anti joins, filters, aggregates), each run under many
-//	              plan configurations (JOIN_ORDER permutations, per-pair HASH/MERGE/LOOKUP/INNER/SEMI/
-//	              ANTI hints, LEFT_DEEP, NO_MERGE_JOIN, seeded random costers); every DISTINCT plan is a
-//	              case: result multiset vs. the Lean reference semantics, plus the model-free pairwise
-//	              oracle (all plans of one query agree)
+//	              (b) corpus: one witness per known finding, run under the configuration that shows it;
+//	              (c) engine level: generated databases (PK / UNIQUE / secondary / composite indexes;
+//	              every third database is made for merge / lookup / hash joins: indexed join columns,
+//	              blocks of equal keys, NULL keys) and join queries (2-4 way inner/left/cross chains,
+//	              mixed chains, three-table "reorder" chains with one two-table conjunct per ON and
+//	              NULL-accepting conditions, IN / EXISTS / NOT IN / NOT EXISTS subqueries that become
+//	              semi/anti joins, row-constructor NOT IN, filters, aggregates), each run under many plan
+//	              configurations (all JOIN_ORDER permutations of three tables, per-pair HASH / MERGE /
+//	              LOOKUP / INNER / SEMI / ANTI hints, LEFT_DEEP, NO_MERGE_JOIN, seeded random costers);
+//	              every DISTINCT analyzed plan is a case: result multiset vs. the Lean reference semantics
+//	              (for a plain two-table merge join plan the Lean driver also runs the merge-join model),
+//	              plus the model-free pairwise oracle (all plans of one query agree)
 //	c01 sql       run the statements on stdin on a fresh engine and print result + plan (manual replay)
 package main
 
